@@ -47,7 +47,7 @@ func Verif_C06_Arith_negotiation() {
 	verifNote("OpenSent receives a valid OPEN with symbolic remote hold time (0 or >= 3) under a symbolic local hold time (0 or >= 3): all pairs")
 	cfg, remote := c06Holds()
 	conn := newSymConn("c", nil, 0)
-	conn.addFrame(openMessageType, mkOpenBody(cfg.remoteAS, remote, 0x0a000002))
+	conn.addFrame(verifMsgOpen, mkOpenBody(cfg.remoteAS, remote, 0x0a000002))
 	verifAssume(verifNot(verifAnd(cfg.localAS == cfg.remoteAS, cfg.localID == 0x0a000002)))
 	pl := newMonPlugin()
 	p := mkPeer(cfg, pl)
@@ -91,7 +91,7 @@ func Verif_C06_Arith_openconfirm() {
 		if f.holdTimer != nil {
 			before = verifTimerResets(f.holdTimer)
 		}
-		conn.send(keepAliveMessageType, nil)
+		conn.send(verifMsgKeepalive, nil)
 		verifQuiesce()
 		to := <-done
 		verifAssert("keepalive-establishes", to == establishedState)
@@ -120,7 +120,7 @@ func Verif_C06_Arith_openconfirm() {
 		}
 		verifDelayBound(1)
 		verifFireTimer(f.holdTimer)
-		conn.send(keepAliveMessageType, nil)
+		conn.send(verifMsgKeepalive, nil)
 		verifQuiesce()
 		to := <-done
 		if to == establishedState {
@@ -161,13 +161,13 @@ func Verif_C06_Arith_established() {
 		}
 		switch verifChoose("event", 4) {
 		case 0:
-			conn.send(keepAliveMessageType, nil)
+			conn.send(verifMsgKeepalive, nil)
 			verifQuiesce()
 			if nz {
 				verifAssert("keepalive-received-rearms-hold-timer", verifTimerResets(f.holdTimer) == hb+1)
 			}
 		case 1:
-			conn.send(updateMessageType, []byte{0, 0, 0, 0})
+			conn.send(verifMsgUpdate, []byte{0, 0, 0, 0})
 			verifQuiesce()
 			verifAssert("update-delivered", len(pl.updates) >= 1)
 			if nz {
@@ -232,11 +232,11 @@ func c06SecondSession() {
 		verifAssert("first-dial", false)
 		return
 	}
-	c1.send(openMessageType, mkOpenBody(e.cfg.remoteAS, r1, e.remoteID))
+	c1.send(verifMsgOpen, mkOpenBody(e.cfg.remoteAS, r1, e.remoteID))
 	verifQuiesce()
 	endKind := verifChoose("first-session-ends", 3)
 	if endKind != 2 {
-		c1.send(keepAliveMessageType, nil)
+		c1.send(verifMsgKeepalive, nil)
 		verifQuiesce()
 		verifAssert("first-session-established", e.pl.nEstab == 1)
 	}
@@ -247,7 +247,7 @@ func c06SecondSession() {
 	}
 	c06CheckArmed(f, c06H(e.cfg.holdSec, r1))
 	if endKind == 1 {
-		c1.send(notificationMessageType, []byte{NOTIF_CODE_CEASE, 0})
+		c1.send(verifMsgNotification, []byte{NOTIF_CODE_CEASE, 0})
 	} else {
 		c1.remoteClose(1)
 	}
@@ -266,11 +266,11 @@ func c06SecondSession() {
 	o1, o2 := c1.writes[0], c2.writes[0]
 	verifAssert("second-open-carries-configured-hold-time", len(o2) >= 29 && uint16(o2[22])<<8|uint16(o2[23]) == e.cfg.holdSec)
 	verifAssertBytesEq("second-open-identical-to-first", o2, o1)
-	c2.send(openMessageType, mkOpenBody(e.cfg.remoteAS, r2, e.remoteID))
+	c2.send(verifMsgOpen, mkOpenBody(e.cfg.remoteAS, r2, e.remoteID))
 	verifQuiesce()
 	verifAssert("second-open-exchange-done", e.p.fsmState[out] == openConfirmState)
 	c06CheckArmed(f, c06H(e.cfg.holdSec, r2))
-	c2.send(keepAliveMessageType, nil)
+	c2.send(verifMsgKeepalive, nil)
 	verifQuiesce()
 	verifAssert("second-session-established", e.pl.nEstab == 1+verifIteInt(endKind != 2, 1, 0))
 	c06CheckArmed(f, c06H(e.cfg.holdSec, r2))
